@@ -184,7 +184,7 @@ def read_precomputed_mesh(file):
                                    "not adequate")
     flat_triangles = np.frombuffer(buf, "<I")
     triangles = np.reshape(flat_triangles, (-1, 3), order="C")
-    if np.any(triangles > num_vertices):
+    if np.any(triangles >= num_vertices):
         raise InvalidMeshDataError("The mesh references nonexistent vertices")
     return (vertices, triangles)
 
